@@ -58,7 +58,7 @@ SHARDS = {"quick": 1, "thorough": 48}     # many small fresh processes (semantiv
 SHARD_TIMEOUT = {"thorough": 2400}
 N_BATCHES = {"quick": 50, "thorough": 80}     # per shard
 WATCHDOG_S = float(os.environ.get("C15_WATCHDOG", "120"))   # per batch; firing => inconclusive, never a violation
-FAIL_KINDS = ["boom", "unresolvable", "type_gate", "yaml_unloadable", "raise_odd"]
+FAIL_KINDS = ["boom", "unresolvable", "type_gate", "yaml_unloadable", "raise_odd", "construction"]
 TOKEN_PREFIXES = ("tok_", "probe_", "final_", "label_", "sp_", "scaled_", "moved_")
 
 
@@ -90,6 +90,14 @@ def make_job(rng: random.Random, g, b: int, j: int, fail_kind=None, force=None) 
 
             nodes = list(chain)
             nodes.insert(rng.randrange(len(nodes) + 1), {"processor": "VRaise", "parameters": {"exc": ODD_EXCEPTION_KINDS[(b + j) % len(ODD_EXCEPTION_KINDS)]}})
+        elif fail_kind == "construction":
+            # a well-formed list of node dicts whose Pipeline CONSTRUCTION raises (before any node runs)
+            bad = [{"processor": "VMul", "parameters": {"factor": f1}, "derive": {"parameter_sweep": {"parameters": {"factor": "t"}, "variables": {}}}},
+                   {"processor": "VMul", "parameters": {"factor": {1.5, 2.5}}},
+                   {"processor": "ModelFittingContextProcessor", "parameters": {"fitting_model": "model:NoSuchModelAnywhere:degree=1"}},
+                   {"processor": "VMul", "parameters": {"factor": f1}, "derive": {"parameter_sweep": {"parameters": {"factor": "t +"}, "variables": {"t": [1.0]}, "collection": "FloatDataCollection"}}}]
+            nodes = list(chain)
+            nodes.insert(rng.randrange(len(nodes) + 1), bad[(b + j) % len(bad)])
         elif fail_kind == "unresolvable":
             nodes = [chain[0], {"processor": "VAdd"}, chain[2]]          # addend neither configured nor in context
         elif fail_kind == "type_gate":
@@ -721,6 +729,63 @@ def report(run, spec, out, tag=None):
         run.count(k, v)
 
 
+def same_path_rewritten(run, scratch, seed):
+    """A campaign that re-uses ONE configuration path: the YAML at that path is rewritten between jobs (each job is
+    enqueued only after the previous Future completed, so which content a job means is unambiguous).  Every Future must
+    carry the result of the pipeline the file held when its job was enqueued."""
+    import threading
+
+    from semantiva.context_processors.context_types import ContextType
+    from semantiva.execution.executor.executor import SequentialSemantivaExecutor
+    from semantiva.execution.job_queue.queue_orchestrator import QueueSemantivaOrchestrator
+    from semantiva.execution.job_queue.worker import worker_loop
+    from semantiva.execution.transport.in_memory import InMemorySemantivaTransport
+    from vlib import account, gen, jobq
+
+    path = os.path.join(scratch, "campaign.yaml")
+    transport = InMemorySemantivaTransport()
+    orch = QueueSemantivaOrchestrator(transport=transport, stop_event=None, logger=jobq.make_logger("c15.samepath.master"))
+    orch.job_queue = jobq.TapQueue(jobq.Monitor(), 0.005)       # cap the hard-coded 0.2 s poll
+    stop = threading.Event()
+    threads = [threading.Thread(target=orch.run_forever, daemon=True, name="c15-sp-master"),
+               threading.Thread(target=worker_loop, args=(0, transport, SequentialSemantivaExecutor(), stop, jobq.make_logger("c15.samepath.w0"), 0.002),
+                                daemon=True, name="c15-sp-w0")]
+    for t in threads:
+        t.start()
+    rng = random.Random(seed)
+    try:
+        for step in range(5):
+            factor = 1.5 + step + rng.choice([0.0, 0.25])
+            nodes = [{"processor": "VSrc", "parameters": {"value": 4.0 + step}}, {"processor": "VMul", "parameters": {"factor": factor}}]
+            if step == 3:
+                nodes = nodes[:1]                                    # a shorter pipeline at the same path
+            with open(path, "w", encoding="utf-8") as fh:
+                fh.write(gen.to_yaml(nodes))
+            expected = (4.0 + step) * (factor if step != 3 else 1.0)
+            fut = orch.enqueue(path, data=None, context=ContextType({}), return_future=True)
+            try:
+                data, _ctx = fut.result(timeout=WATCHDOG_S)
+            except TimeoutError:
+                run.note_inconclusive("same-path scenario: watchdog fired")
+                return
+            except Exception as exc:  # noqa: BLE001
+                run.violation("wrong_result_same_path_rewritten", f"step {step}: the job of the rewritten configuration file failed: {type(exc).__name__}: {exc}",
+                              {"mode": "same_path", "step": step, "nodes": nodes})
+                return
+            run.count("same_path_rewritten_jobs")
+            got = account.plain(data)
+            if not account.close(got, expected):
+                run.violation("wrong_result_same_path_rewritten",
+                              f"step {step}: the configuration file at one path was rewritten before this job was enqueued; its Future returned {got!r}, "
+                              f"the pipeline in the file returns {expected!r}", {"mode": "same_path", "step": step, "nodes": nodes, "observed": got, "expected": expected})
+                return
+    finally:
+        stop.set()
+        orch.stop()
+        for t in threads:
+            t.join(timeout=5)
+
+
 def run(run):
     boot.boot()
     from vlib import gen, jobq
@@ -731,6 +796,10 @@ def run(run):
     scratch = tempfile.mkdtemp(prefix="verif-c15-")
     g = gen.Gen(seed + 7, scratch)
     sysmode = os.environ.get("C15_SYSTEMATIC", "1")
+    try:
+        same_path_rewritten(run, scratch, seed)
+    except Exception as exc:  # noqa: BLE001
+        run.note_inconclusive(f"same-path scenario failed: {type(exc).__name__}: {exc}")
     if sysmode != "0":
         # systematic pass first: it installs / removes its own sys.monitoring tool and module shims (never at the same
         # time as the YieldInjector below) and restores every module attribute before the perturbation-based batches
@@ -868,6 +937,15 @@ def replay(run, witness):
         from vlib import jobsched
 
         jobsched.replay(run, witness)
+        return
+    if witness.get("mode") == "same_path":
+        scratch = tempfile.mkdtemp(prefix="verif-c15-")
+        try:
+            same_path_rewritten(run, scratch, run.seed * 1000)
+            run.case("same-path", True, sample={"mode": "same_path"})
+            run.case("replay-second-slot", True)
+        finally:
+            shutil.rmtree(scratch, ignore_errors=True)
         return
     spec = witness["batch"]
     scratch = tempfile.mkdtemp(prefix="verif-c15-")
